@@ -8,6 +8,7 @@ use ast_grep_config::RuleConfig;
 use codespan_reporting::files::SimpleFile;
 
 use std::borrow::Cow;
+use std::collections::HashMap;
 use std::ops::Range;
 use std::path::{Path, PathBuf};
 
@@ -16,6 +17,10 @@ pub struct InteractivePrinter<P: Printer> {
   from_stdin: bool,
   committed_cnt: usize,
   inner: P,
+  /// Edits already written to a file in this run. One file can arrive in several payloads,
+  /// one per document (e.g. html and the js/css embedded in it), all computed against the
+  /// same old source: later payloads must keep the edits of the earlier ones.
+  written: HashMap<PathBuf, Vec<InteractiveDiff<()>>>,
 }
 
 impl<P: Printer> InteractivePrinter<P> {
@@ -28,6 +33,7 @@ impl<P: Printer> InteractivePrinter<P> {
         from_stdin,
         inner,
         committed_cnt: 0,
+        written: HashMap::new(),
       })
     }
   }
@@ -48,17 +54,46 @@ impl<P: Printer> InteractivePrinter<P> {
     utils::prompt(VIEW_PROMPT, "qe", Some('\n')).expect("cannot fail")
   }
 
-  fn rewrite_action(&self, diffs: Diffs<()>, path: &PathBuf) -> Result<()> {
+  fn rewrite_action(&mut self, mut diffs: Diffs<()>, path: &PathBuf) -> Result<()> {
     if diffs.contents.is_empty() {
       return Ok(());
     }
-    let new_content = apply_rewrite(diffs);
     if self.from_stdin {
+      let new_content = apply_rewrite(diffs);
       println!("{new_content}");
-      Ok(())
-    } else {
-      std::fs::write(path, new_content).with_context(|| EC::WriteFile(path.clone()))
+      return Ok(());
     }
+    // merge with the edits of the documents of this file that were written before
+    if let Some(mut previous) = self.written.remove(path) {
+      previous.append(&mut diffs.contents);
+      previous.sort_by_key(|d| d.range.start);
+      // edits of different documents can overlap, e.g. an html rule replacing a whole
+      // <script> element and a js rule inside it: the first one wins
+      let before = previous.len();
+      let mut end = 0;
+      previous.retain(|d| {
+        let keep = d.range.start >= end;
+        if keep {
+          end = d.range.end;
+        }
+        keep
+      });
+      self.committed_cnt = self.committed_cnt.saturating_sub(before - previous.len());
+      diffs.contents = previous;
+    }
+    let kept = diffs
+      .contents
+      .iter()
+      .map(|d| InteractiveDiff {
+        replacement: d.replacement.clone(),
+        range: d.range.clone(),
+        first_line: d.first_line,
+        display: (),
+      })
+      .collect();
+    self.written.insert(path.clone(), kept);
+    let new_content = apply_rewrite(diffs);
+    std::fs::write(path, new_content).with_context(|| EC::WriteFile(path.clone()))
   }
 
   fn process_highlights(&mut self, highlights: Highlights<P::Processed>) -> Result<()> {
